@@ -434,7 +434,8 @@ def fault_sig(res):
 
 def effective_out(res):
     out = res["out"]
-    if res["phase"] == "interp" and res["rc"] != 0:
+    if res["phase"] == "interp":      # the interpreter's stack listing (it holds addresses) is printed whenever a run-time error is
+        # raised, also when the program catches it and ends normally (corpus program bug702): a diagnostic, not output
         out = re.sub(r"^(#\d+ \S+ in <[^>]*> at unit \[[^\]]*\]|\.\.\.)\n", "", out, flags=re.M)
     return out
 
